@@ -365,6 +365,8 @@ def main(pid="C12"):
                                       sorted(bad), c["before"], c["op"], "through `nauyaca tofu`" if c.get("_front") == "cli" else "library call",
                                       c["_fault"], c["outcome"], c["final"]), c)
         round_trip(rep, rnd, work, 400 if thorough else 80)
+        round_trip_other_locale(rep, work)
+        big_import_crash(rep, work, [0.98, 0.5, 0.9, 0.999] if thorough else [0.98])
         rep.set("rule", "every (store, operation) enumerated by TLC x a fault at every statement boundary (injected error in process; "
                 "process kill by fork+_exit for a quarter of the operations in the quick tier, all in thorough); distinct = (store, op, fault point, kind)")
         rep.set("exhaustive", thorough)
@@ -421,6 +423,108 @@ def round_trip(rep, rnd, work, count):
             rep.violation({"formula": "RoundTrip"}, "export -> import does not reproduce the store: had %s, got %s" % (
                 sorted(rows.items())[:6], got if isinstance(got, str) else sorted(got.items())[:6]), None)
     rep.add("round_trips", count)
+
+
+CHILD = r"""
+import os, sys, sqlite3, json
+sys.path.insert(0, os.path.join(os.environ["NAUYACA_REPO_"], "src"))
+import nauyaca.protocol.request
+from pathlib import Path
+from nauyaca.security import tofu as tofumod
+work = sys.argv[1]
+rows = json.load(open(os.path.join(work, "lc-rows.json"), encoding="utf-8"))
+a, b, f = (os.path.join(work, n) for n in ("lc-a.db", "lc-b.db", "lc.toml"))
+for p in (a, b, f):
+    if os.path.exists(p):
+        os.unlink(p)
+da = tofumod.TOFUDatabase(Path(a))
+con = sqlite3.connect(a)
+for host, port, fp, fs in rows:
+    con.execute("INSERT INTO known_hosts VALUES (?,?,?,?,?)", (host, port, fp, fs, fs))
+con.commit(); con.close()
+try:
+    da.export_toml(Path(f))
+    tofumod.TOFUDatabase(Path(b)).import_toml(Path(f), merge=False)
+    con = sqlite3.connect(b)
+    got = sorted([h, p, fp, fs] for h, p, fp, fs in con.execute("SELECT hostname, port, fingerprint, first_seen FROM known_hosts"))
+except Exception as e:
+    got = "exception %r" % (e,)
+sys.stdout.buffer.write(json.dumps({"got": got}).encode("ascii"))
+"""
+
+
+def round_trip_other_locale(rep, work):
+    """The same round trip in a process whose locale is not UTF-8 (LC_ALL=C with locale coercion and UTF-8 mode off - the
+    stand-in available here for a legacy code page): the file format is TOML, i.e. UTF-8, whatever the locale."""
+    import subprocess
+    from vf import REPO
+    rows = sorted([[h, 1965, "sha256:" + "%064x" % (i + 1), "2024-01-0%dT00:00:00+00:00" % (i + 1)]
+                   for i, h in enumerate(["ünïcödé.ex", "日本語.jp", "plain.example", "emoji-\U0001F600.ex"])])
+    with open(os.path.join(work, "lc-rows.json"), "w", encoding="utf-8") as f:
+        json.dump(rows, f)
+    env = {k: v for k, v in os.environ.items() if not k.startswith(("LC_", "LANG", "PYTHONUTF8", "PYTHONCOERCECLOCALE", "PYTHONIOENCODING"))}
+    env.update({"LC_ALL": "C", "PYTHONCOERCECLOCALE": "0", "PYTHONUTF8": "0", "NAUYACA_REPO_": REPO})
+    r = subprocess.run([sys.executable, "-c", CHILD, work], env=env, capture_output=True, timeout=120)
+    rep.add("evaluations")
+    rep.add("round_trips_other_locale")
+    try:
+        got = json.loads(r.stdout.decode("ascii"))["got"]
+    except Exception:  # noqa: BLE001
+        raise tlc.TLCError("locale child failed: %r %r" % (r.stdout[-200:], r.stderr[-400:]))
+    if got != rows:
+        rep.violation({"formula": "RoundTrip", "locale": "C"},
+                      "export -> import in a process with a non-UTF-8 locale does not reproduce the store: had %s, got %s" % (rows, got), None)
+
+
+def big_import_crash(rep, work, kills):
+    """A crash late in an import large enough for SQLite to spill pages to the file before COMMIT (tens of thousands of
+    entries): the reopened store must be exactly the old one and structurally sound."""
+    n_old, n_new = 3000, 30000
+    path = os.path.join(work, "big.db")
+    imp = os.path.join(work, "big.toml")
+    with open(imp, "w") as f:
+        f.write('[_metadata]\nversion = "1.0"\n\n')
+        for i in range(n_new):
+            f.write('[hosts.k%d]\nhostname = "new-%d.example"\nport = 1965\nfingerprint = "sha256:%064x"\nfirst_seen = "2024-01-01T00:00:00+00:00"\nlast_seen = "2024-01-01T00:00:00+00:00"\n\n' % (i, i, i + 7))
+    for frac in kills:
+        for ext in ("", "-journal", "-wal", "-shm"):
+            if os.path.exists(path + ext):
+                os.unlink(path + ext)
+        PLAN.armed = False
+        db = tofumod.TOFUDatabase(Path(path))
+        con = sqlite3.connect(path)
+        con.executemany("INSERT INTO known_hosts VALUES (?,?,?,?,?)",
+                        [("old-%d.example" % i, 1965, "sha256:%064x" % i, "2023-01-01T00:00:00+00:00", "2023-01-01T00:00:00+00:00") for i in range(n_old)])
+        con.commit()
+        con.close()
+        before = sorted(sqlite3.connect(path).execute("SELECT hostname, port, fingerprint FROM known_hosts").fetchall())
+        pid = os.fork()
+        if pid == 0:
+            try:
+                PLAN.k, PLAN.kind, PLAN.count, PLAN.armed = int(frac * 2 * n_new), "crash", 0, True
+                db.import_toml(Path(imp), merge=True)
+                os._exit(0)
+            except BaseException:
+                os._exit(1)
+        _, status = os.waitpid(pid, 0)
+        code = os.waitstatus_to_exitcode(status)
+        rep.add("evaluations")
+        rep.add("big_import_kills")
+        con = sqlite3.connect(path)
+        try:
+            after = sorted(con.execute("SELECT hostname, port, fingerprint FROM known_hosts").fetchall())
+            by_index = con.execute("SELECT COUNT(*) FROM known_hosts WHERE hostname >= ''").fetchone()[0]
+            integrity = [r_[0] for r_ in con.execute("PRAGMA integrity_check").fetchall()]
+        except sqlite3.DatabaseError as e:
+            after, by_index, integrity = "unreadable: %r" % (e,), -1, ["unreadable"]
+        finally:
+            con.close()
+        if code == 77 and (after != before or integrity != ["ok"] or by_index != len(before)):
+            rep.violation({"formula": "AllOrNothing", "big_import": True},
+                          "AllOrNothing falsified: process killed at statement boundary %d of a %d-entry merge import into a store of %d pins: reopened store has %s rows "
+                          "(index scan: %s), integrity_check %s" % (int(frac * 2 * n_new), n_new, n_old, len(after) if isinstance(after, list) else after, by_index, integrity[:2]), None)
+        elif code != 77:
+            raise tlc.TLCError("big import was not killed (exit %s): boundary count differs" % code)
 
 
 if __name__ == "__main__":
